@@ -25,7 +25,7 @@ func (m *Mutex) canLock() bool {
 
 func (m *Mutex) Lock() {
 	if s := verifmc.Cur; s != nil {
-		s.PointCond("lock", m.canLock, nil)
+		s.SyncPoint("lock", m.canLock)
 	}
 	for {
 		m.g.Lock()
@@ -105,7 +105,7 @@ func (m *RWMutex) wake() {
 
 func (m *RWMutex) Lock() {
 	if s := verifmc.Cur; s != nil {
-		s.PointCond("wlock", m.canLock, nil)
+		s.SyncPoint("wlock", m.canLock)
 	}
 	for {
 		m.g.Lock()
@@ -132,7 +132,7 @@ func (m *RWMutex) Unlock() {
 
 func (m *RWMutex) RLock() {
 	if s := verifmc.Cur; s != nil {
-		s.PointCond("rlock", m.canRLock, nil)
+		s.SyncPoint("rlock", m.canRLock)
 	}
 	for {
 		m.g.Lock()
